@@ -190,8 +190,17 @@ impl From<Frame> for Vec<u8> {
             buf.extend_from_slice(&f.masking_key);
         }
 
-        // Add the payload and return
-        buf.extend_from_slice(&f.payload);
+        // Add the payload (masked with the key if required) and return
+        if f.mask {
+            buf.extend(
+                f.payload
+                    .iter()
+                    .enumerate()
+                    .map(|(i, byte)| byte ^ f.masking_key[i % 4]),
+            );
+        } else {
+            buf.extend_from_slice(&f.payload);
+        }
 
         buf
     }
